@@ -353,6 +353,29 @@ def run(tier):
                "classified and counted. non-trivial = mutant or document using fragments/aliases/directives/variables, "
                "and every executed request")
     if br.ok:
+        # the merge clause of the chain (C13_rules_sound assumes the overlap specification function is silent):
+        # documents accepted by the real overlap rule must have no conflict under the extracted specification
+        # function - on fragment-heavy documents incl. the memo-order templates of harness/c14.py
+        from . import c14
+        m_ov = Model("overlap")
+        rng14 = ck.rng
+        for _ in range(25 if tier == "quick" else 300):
+            try:
+                info = c14.gen_schema(rng14)
+            except Exception:  # noqa: BLE001
+                continue
+            batch = []
+            for j in range(30):
+                g = c14.DocGen(rng14, info, rng14.choice([2, 2, 3, 4]))
+                text = None
+                if j % 3 == 2:
+                    text = c14.template_document(rng14, info, g)
+                elif j % 3 == 1:
+                    text = c14.forwarding_document(rng14, info, g)
+                batch.append((info.sdl, info.schema, text or g.document(rng14.randint(1, 3))))
+            c14.compare_documents(ck, m_ov, batch)
+        c14.compare_documents(ck, m_ov, c14.corpus_items(ck))
+        c14.pairset_scripts(ck, m_ov, 400 if tier == "quick" else 4000)
         # the ten schema-dependent rules the typing judgment relies on: extracted models vs the real rules
         from . import crules13
         rule0 = ck.rule
